@@ -712,7 +712,11 @@ func monitorAuxAccepted(h *H, site string, wh *types.WorkObjectHeader, sigOK boo
 
 func uncleCorpus() []string {
 	return append([]string{"kawpow-share", "bch-default", "scrypt-default", "btc-own", "scrypt-auxpow2-short", "scrypt-auxpow2-empty", "sha-unsigned-invalid-address", "sha-unsigned-valid-address",
-		"scrypt-zero-doge", "kawpow-block-sibling", "share-diff-0"}, extraCorpus(1, 2, 3, 4)...)
+		"scrypt-zero-doge", "kawpow-block-sibling", "share-diff-0",
+		"steal:1:wh.primaryCoinbase", "steal:2:wh.primaryCoinbase", "steal:3:wh.primaryCoinbase", "steal:4:wh.primaryCoinbase",
+		"steal:1:wh.lock", "steal:2:wh.lock", "steal:3:wh.lock", "steal:4:wh.lock",
+		"steal:1:wh.time", "steal:2:wh.time", "steal:3:wh.time", "steal:4:wh.time",
+		"steal:1:wh.shaShareTarget", "steal:2:wh.shaShareTarget", "steal:3:wh.shaShareTarget", "steal:4:wh.shaShareTarget"}, extraCorpus(1, 2, 3, 4)...)
 }
 
 func caseUncle(h *H, r *hlib.Rng, variant string) {
@@ -770,6 +774,19 @@ func caseUncle(h *H, r *hlib.Rng, variant string) {
 	default:
 		if p, m, ok := parseExtra(variant); ok {
 			powid, mut, invalidAddr, xmut = p, m, false, true
+		} else if strings.HasPrefix(variant, "steal:") {
+			// "steal:<powid>:<header field>": a valid share of every donor chain whose sealed Quai content is changed while the
+			// AuxPoW (donor header, coinbase, signature) is kept as it is - the donor work is re-used for other content
+			var name string
+			fmt.Sscanf(strings.TrimPrefix(variant, "steal:"), "%d", &powid)
+			name = variant[len("steal:")+2:]
+			for _, m := range headerMutations() {
+				if m.name == name {
+					mm := m
+					mut = &mm
+				}
+			}
+			invalidAddr, xmut = false, true
 		}
 	}
 	parent := unAnc[len(unAnc)-1]
